@@ -63,3 +63,6 @@ func LiveLibThreads() int { return vsched.LiveLibThreads() }
 
 // Notes returns the lock-discipline findings of an execution (T7).
 func Notes(r ExecResult) []string { return r.Notes }
+
+// Reset empties the library's global free lists (between two stores of one execution).
+func Reset() { gkvlite.VerifReset() }
